@@ -22,11 +22,12 @@ from sexp import Sym
 
 from props._chunks_util import comps, rand_comp, rand_comp_zeros, setup_dask
 from props import _c27x
+from props import _c27nd
 
 PROP = "C27"
 READY = True
 DRIVER = "dm_chunks"
-LEAN_MODULES = ["DaskModel.Props.C27", "DaskModel.Props.C27xNaN"]
+LEAN_MODULES = ["DaskModel.Props.C27", "DaskModel.Props.C27xNaN", "DaskModel.Props.C27xNd"]
 CASE_TIMEOUT_S = 30
 LEVEL_TEXT = ("Lean 4 theorems, for every chunking (zero-length chunks included), that the chunked evaluation equals the routine "
               "on the whole array — one or more per clause of the statement: searchsorted_den (sorted a; block results with "
@@ -41,7 +42,8 @@ LEVEL_TEXT = ("Lean 4 theorems, for every chunking (zero-length chunks included)
               "trailing NaN, the `if v != v: m = ar != ar` branch of _unique_internal and the NaN clause of return_inverse's matches): "
               "unique_nan_mask, unique_nan_merge, unique_nan_den, unique_nan_spec_char, unique_nan_chunked_char (np.unique's values, "
               "FIRST index, multiplicity, every chunking incl. all-NaN and empty chunks), unique_nan_inverse_den "
-              "(Props/C27xNaN.lean); nonzero_den, count_nonzero_den, argwhere_den, argwhere_chunked, flatnonzero_den, "
+              "(Props/C27xNaN.lean); return_inverse on 2-d input (ravel in front, reshape at the end, any chunking of the ravelled array, NaN included): "
+              "reshape_ravel, unique_nd_inverse_den, unique_nd_shape, unique_nd_reconstruct (Props/C27xNd.lean); nonzero_den, count_nonzero_den, argwhere_den, argwhere_chunked, flatnonzero_den, "
               "nonzero_nd_den (n-d, as unravelled flat positions); isin_den; ravel/unravel: unravel_ravel_C, ravel_unravel_C, "
               "ravel_multi_index_unravel, unravel_index_ravel (round trips, C and F order, exact error guard), "
               "ravel_multi_index_modes (raise/wrap/clip stay in bounds), unravel_blocks; compress_den, compress_rejects, "
@@ -54,7 +56,7 @@ LEVEL_TEXT = ("Lean 4 theorems, for every chunking (zero-length chunks included)
               "coarsen2_den and coarsen2_any_chunking (both axes of a 2-d array, every chunking of rows and columns; polymorphic "
               "in the element type, so further axes are instances). "
               "All over exact ordered values (Nat) along one axis unless said otherwise. Validated against NumPy only, not proved: float data / float "
-              "bin edges, NaN outside unique (searchsorted / digitize / histogram / isin), float weights (and any weights of histogram2d/dd), density, bins given as count + range, return_inverse on n-d input, "
+              "bin edges, NaN outside unique (searchsorted / digitize / histogram / isin), float weights (and any weights of histogram2d/dd), density, bins given as count + range, return_inverse on input with three or more axes, "
               "coarsen of arrays with three or more axes and with reductions other than through the model's sum, compress along an axis of an n-d array and with a "
               "NumPy condition (integer fancy indexing, C20/C21), isin/searchsorted with n-d operands, dtype of every result.")
 LEVEL_NOTE = ("Trusted: Lean kernel + standard axioms; the harness; NumPy's per-chunk kernels (np.searchsorted/bincount/histogram/"
@@ -1023,7 +1025,7 @@ CASES = {k: _api(v) for k, v in {
     "searchsorted": case_searchsorted, "bincount": case_bincount, "histogram": case_histogram,
     "unique": case_unique, "unique_internal": case_unique_internal, "nonzero": case_nonzero, "misc": case_misc,
     "aligned": case_aligned, "coarsen1d": case_coarsen1d, "histdd": case_histdd, "digitize1d": case_digitize1d,
-    "compress1d": case_compress1d, "ravel": case_ravel, "unravel": case_unravel, **_c27x.CASES}.items()}
+    "compress1d": case_compress1d, "ravel": case_ravel, "unravel": case_unravel, **_c27x.CASES, **_c27nd.CASES}.items()}
 
 
 def _nd(rng, maxd=3, maxn=5):
@@ -1321,6 +1323,8 @@ def generate(ctx):
         _c27x.gen_explicit(),
         _c27x.gen_api(ctx, ctx.n(160, 2000)),
         _c27x.gen_internal(ctx, ctx.n(120, 1500)),
+        _c27nd.gen_explicit(),
+        _c27nd.gen_api(ctx, ctx.n(120, 1500)),
     ])
 
 
